@@ -1704,6 +1704,23 @@ class Gen:
             return ['NewTask', 20, None, 'a', None], {}
         a, p = rng.choice(pairs)
         r = rng.random()
+        deepest = [x for c_ in V.kids(a) for x in V.kids(c_)]
+        if deepest and self.rng2.random() < 0.6:
+            # follow-up (own stream): after the rejected compound call a NEW member takes the id of a task two levels below
+            # the tree that was briefly adopted, and that task is then moved into the WBS on the parent path - it owns
+            # nothing, so the id check must refuse it (a stale owner left by the undo lets it in: two members, one id)
+            g = self.rng2.choice(deepest)
+            root_p = V.root(p)
+            gid = V.tid(g)
+
+            def then_new(V2, g=g, p=p, root_p=root_p, gid=gid):
+                n2 = V2.n
+                kind = self.rng2.choice(['SetParent', 'ChAppend', 'ChInsert'])
+                back = (['SetParent', g, p], dict(how, v=None)) if kind == 'SetParent' else \
+                    (['ChAppend', p, g], dict(how, facade=None)) if kind == 'ChAppend' else (['ChInsert', p, 0, g], dict(how, facade=None))
+                self.queue = [(['ChAppend', root_p, n2], dict(how, facade=None)), back]
+                return ['NewTask', gid, None, 'twin', None], {}
+            self.queue = [then_new]
         if r < 0.6:
             # constructor: parent inside a WBS, children=[a] (adopted with its whole subtree), then a rejected dependency
             i = 23 if 23 not in ids_of(users) else self.unused_id
